@@ -12,6 +12,10 @@ from ..common import (Run, Part, CaseServer, HarnessCrash, pmap, rng_for, build_
 PROP = "C09"
 BUDGET_ASAN = 10000
 BUDGET_PLAIN = 60000
+# a stream on a table-based scale that starts within three months of the end of its table has a few dozen periods to look at
+# before the scale has no more months for it (5 ms on the plain build for every rule of the list): the one family where "bounded
+# work" has a number that does not depend on the rule, and 3 s of CPU for it is a stall, not an expensive rule
+BUDGET_TABLE_END = 3000
 
 
 def features(text):
@@ -79,6 +83,8 @@ def run_one(srv_asan, plain_exe, part, text, stratum, npop, style):
     # the dense-EXRULE stratum is a listed finding (minutes to hours of CPU): it is told apart from an answer that merely
     # takes long by a smaller budget, there is no point in waiting 70 s for each of them
     b_asan, b_plain = (BUDGET_ASAN, BUDGET_PLAIN) if not stratum.endswith("exrule-dense") else (BUDGET_ASAN // 4, BUDGET_PLAIN // 6)
+    if stratum == "limits/table-end":
+        b_asan, b_plain = BUDGET_TABLE_END, BUDGET_TABLE_END
     opts = "n=%d style=%s budget=%d" % (npop, style, b_asan)
     sig = features(text) + "/" + stratum
     part.evaluations += 1
@@ -101,10 +107,11 @@ def run_one(srv_asan, plain_exe, part, text, stratum, npop, style):
                 return
             except HarnessCrash as e2:
                 if e2.kind == "timeout":
-                    part.violation(sig + "/hang", {"input": text, "n": npop, "style": style,
-                                                   "summary": "no answer within %d ms CPU (ASan) and %d ms CPU (plain build)" % (b_asan, b_plain)})
+                    part.violation(sig + ("/stall-at-table-end" if stratum == "limits/table-end" else "/hang"),
+                                   {"input": text, "n": npop, "style": style, "stratum": stratum,
+                                    "summary": "no answer within %d ms CPU (ASan) and %d ms CPU (plain build)" % (b_asan, b_plain)})
                 else:
-                    part.violation(sig + "/crash-" + e2.kind, {"input": text, "n": npop, "style": style, "summary": e2.detail[:1500]})
+                    part.violation(sig + "/crash-" + e2.kind, {"input": text, "n": npop, "style": style, "stratum": stratum, "summary": e2.detail[:1500]})
                 return
             finally:
                 p.close()
@@ -150,7 +157,9 @@ def worker(args):
                 if ds.startswith("TZID="):
                     par, ds = ";" + ds.split(":", 1)[0], ds.split(":", 1)[1]
                 text = "BEGIN:VCALENDAR\nBEGIN:VEVENT\nUID:lim@verif\nSUMMARY:x\nDTSTART%s:%s\nRRULE:%s\nEND:VEVENT\nEND:VCALENDAR\n" % (par, ds, rule)
-                stratum = "limits"
+                stratum = "limits/table-end" if pick and not pick.startswith("TZID=") and "SCALE=HIJRI" in rule else "limits"
+                if stratum == "limits/table-end":
+                    part.count("table_end_cases")
             else:
                 text, stratum = gen_case(rng, k)
             npop = rng.choice([3, 70, 200]) if tier == "quick" else rng.choice([3, 70, 200, 700])
@@ -232,7 +241,7 @@ def replay(path):
         print("filter case:", w["input"])
         return 1
     srv = CaseServer(build.exe(root, "asan", "h_strm"), wall_timeout=150)
-    run_one(srv, build.exe(root, "plain", "h_strm"), part, w["input"], "replay", w.get("n", 200), w.get("style", "pop"))
+    run_one(srv, build.exe(root, "plain", "h_strm"), part, w["input"], w.get("stratum") or "replay", w.get("n", 200), w.get("style", "pop"))
     srv.close()
     if part.viol:
         for k, v in part.viol.items():
